@@ -78,6 +78,9 @@ func (e *Env) invVarsAt(fr *Frame, at *ssa.BasicBlock) map[string]Value {
 		for _, p := range f.fn.Params {
 			if v, ok := f.regs[p]; ok {
 				vars[p.Name()] = v
+				// parameters are mutable in Go: <name>0 always denotes the value passed in (a
+				// loop that reassigns the parameter rebinds <name> to its header phi)
+				vars[p.Name()+"0"] = v
 			}
 		}
 		for _, fv := range f.fn.FreeVars {
